@@ -6,6 +6,7 @@
   (structural recursion over the line list; no fuel).
 -/
 import Gedcom.Model.Decoder
+import Gedcom.Generated.DecodeShape
 namespace Gedcom.C03
 open Gedcom Gedcom.Dec
 
@@ -124,5 +125,39 @@ theorem error_line_cause (o : Opts) (st : St) (l : Str) (h : step o st l = .erro
 example : decode ⟨false, false⟩ [49, 32, 78] = .panic .indentTooLarge := by
   simp [decode, stripBOM, BOM, List.isPrefixOf, splitLines, splitLines.go, run, step, place, parseLine, parsePtr,
     afterTag, isDigit, isWord, SP, AT, LF, CR, decToNat, isRoleTag, tHUSB, tWIFE, tCHIL]
+
+/-- **Obligation on the regenerated control skeleton of the decoder.** The loop of
+    `Decoder.Decode`, `parseLine`, `readLine` and `consumeOptionalBOM` still have, in source order,
+    exactly the conditions (and branch exits: return / continue / break / panic) that the model's
+    `step`, `place`, `parseLine`, `splitLines` and `stripBOM` were written from.  This pins *where*
+    the decoder can return an error, continue a previous value or panic; what each branch computes
+    is tied by the correspondence.  A rewritten loop breaks this obligation and the run then
+    searches for a failing input with every stream. -/
+theorem decode_source_shape :
+    Generated.conditionsOfDecode =
+      ["for !finished",
+       "if err != nil",
+       "if err != io.EOF => return",
+       "if line == \"\" => continue",
+       "if dec.AllowMultiLine && previousNode != nil",
+       "if err != nil => return",
+       "if dec.AllowMultiLine && previousNode != nil => continue",
+       "if f, ok := node.(*FamilyNode); ok",
+       "if indent == 0 => continue",
+       "if indent-1 >= len(indents)",
+       "if dec.AllowInvalidIndents && len(indents) > 0",
+       "if dec.AllowInvalidIndents => return",
+       "else of dec.AllowInvalidIndents => panic",
+       "case indent >= len(indents)",
+       "case indent < len(indents)-1",
+       "default"] ∧
+    Generated.conditionsOfParseLine =
+      ["if len(parts) == 0 => return",
+       "if parts[2] != \"\"",
+       "case TagChild, TagHusband, TagWife",
+       "if family == nil => return"] ∧
+    Generated.conditionsOfReadLine =
+      ["for", "if err != nil => return", "if b == '\\n' || b == '\\r' => break"] ∧
+    Generated.conditionsOfConsumeOptionalBOM = ["if hasBOM"] := by decide
 
 end Gedcom.C03
